@@ -20,6 +20,8 @@ class Gen:
         self.allow_state = allow_state
         self.userfns = {}      # generated helper functions: name -> (args, ret, stateful)
         self.tuples = True     # tuple-valued temporaries (projection of calls, tuple lets); off for WASM corpora
+        self.records = True    # records {p, q} (fourth session)
+        self.match = False     # numeric match: outside C02's list of constructs; on for C01 / C03 / C18 corpora
         self.closures = False  # closures / higher-order calls: covered exhaustively at small sizes by LangGen;
         #                        larger random uses run into pinned findings (captured destructured variables, ...)
 
@@ -34,12 +36,18 @@ class Gen:
             return self.num(sc, budget)
         if ty == "P":
             return self.pair(sc, budget)
+        if ty == "R":
+            return self.rec(sc, budget)
         return self.fun(sc, budget)
 
     def callable_fns(self, ret, sc):
         out = []
         for f, s in self.sig.items():
             if "F" in s["args"] and not self.closures:
+                continue
+            if any(t not in ("N", "P", "F", "R") for t in s["args"]) or ("R" in s["args"] + [s["ret"]] and not self.records):
+                continue
+            if f == "sumto":        # (its argument may be large: the recursion is bounded, but keep programs cheap)
                 continue
             if s["ret"] == ret and (sc["st"] or not s["st"]):
                 out.append((f, s["args"]))
@@ -58,7 +66,17 @@ class Gen:
         (blocks nested inside expressions are outside the clean fragment of the printer)"""
         r = self.rng
         if budget > 4 and r.random() < 0.6:
-            k = r.choice(["let", "let", "asg"] + (["lett"] if self.tuples else []) + (["letf"] if self.closures else []))
+            k = r.choice(["let", "let", "asg"] + (["lett"] if self.tuples else []) + (["letf"] if self.closures else [])
+                         + (["letr", "asgf"] if self.records else []))
+            if k == "letr":
+                x = self.fresh()
+                a = self.rec(sc, budget // 3)
+                return {"k": "let", "x": x, "a": a,
+                        "b": self.body(dict(sc, r=sc.get("r", []) + [x]), budget - budget // 3)}
+            if k == "asgf" and sc.get("r"):
+                x = r.choice(sc["r"])
+                return {"k": "asgf", "x": x, "n": r.choice(["p", "q"]), "a": self.num(sc, budget // 3),
+                        "b": self.body(sc, budget - budget // 3)}
             if k == "let":
                 x = self.fresh()
                 a = self.num(sc, budget // 3)
@@ -95,6 +113,8 @@ class Gen:
             prods.append("proj")
         if self.closures:
             prods.append("app")
+        if self.records and not sc.get("noif"):
+            prods += ["fld"] + (["match"] if self.match else [])
         if not sc.get("noif"):
             prods.append("if")
         if sc["st"]:
@@ -114,6 +134,12 @@ class Gen:
         if k == "if":
             return {"k": "if", "c": self.num(sc, budget // 3), "t": self.num(sc, budget // 3),
                     "e": self.num(sc, budget // 3)}
+        if k == "fld":
+            return {"k": "fld", "a": self.rec(sc, budget - 1, for_fld=True), "n": r.choice(["p", "q"])}
+        if k == "match":
+            return {"k": "match", "s": {"k": "bin", "op": "%", "a": self.num(sc, budget // 4), "b": {"k": "lit", "v": 3}},
+                    "keys": [0, 2], "arms": [self.num(nost, budget // 4), self.num(nost, budget // 4)],
+                    "d": self.num(nost, budget // 4)}
         if k == "mem":
             return {"k": "mem", "a": self.num(sc, budget - 1)}
         if k == "delay":
@@ -175,6 +201,24 @@ class Gen:
                     "e": self.pair(nost, budget // 3)}
         return {"k": "tup", "es": [self.tupel(sc, max(1, (budget - 1) // 2)), self.tupel(sc, max(1, (budget - 1) // 2))]}
 
+    def rec(self, sc, budget, for_fld=False):
+        """record {p, q}: a variable, mkr(..), a literal written q first, an update of a variable"""
+        r = self.rng
+        opts = ["mkr"] + ([] if for_fld else ["lit", "lit"])
+        if sc.get("r"):
+            opts += ["var", "var", "upd"]
+        k = r.choice(opts)
+        if k == "var":
+            return {"k": "var", "x": r.choice(sc["r"])}
+        if k == "mkr":
+            self.used.add("mkr")
+            return {"k": "call", "f": "mkr", "as": [self.num(sc, max(1, budget - 1))]}
+        if k == "upd":
+            return {"k": "recupd", "a": {"k": "var", "x": r.choice(sc["r"])},
+                    "fs": [{"n": r.choice(["p", "q"]), "a": self.num(sc, max(1, budget - 1))}]}
+        h = max(1, (budget - 1) // 2)
+        return {"k": "rec", "fs": [{"n": "q", "a": self.tupel(sc, h)}, {"n": "p", "a": self.tupel(sc, h)}]}
+
     def tupel(self, sc, budget):
         """tuple element: no `if` anywhere below (pinned finding if_in_tuple), the dsp input not
         as a bare element (pinned finding wasm_proj_of_input_tuple)"""
@@ -235,10 +279,14 @@ def tail_proj(e):
     k = e["k"]
     if k == "proj":
         return True
-    if k in ("let", "lett", "asg"):
+    if k == "fld":
+        return True
+    if k in ("let", "lett", "asg", "asgf"):
         return tail_proj(e["b"])
     if k == "if":
         return tail_proj(e["t"]) or tail_proj(e["e"])
+    if k == "match":
+        return tail_proj(e["d"]) or any(tail_proj(a) for a in e["arms"])
     return False
 
 
@@ -256,11 +304,13 @@ def uses_self(e):
 
 def no_tail_proj(e):
     """a function's result must not be a bare projection (pinned finding): add 0 at the tail"""
-    if e["k"] in ("let", "lett", "asg"):
+    if e["k"] in ("let", "lett", "asg", "asgf"):
         return dict(e, b=no_tail_proj(e["b"]))
     if e["k"] == "if":
         return dict(e, t=no_tail_proj(e["t"]), e=no_tail_proj(e["e"]))
-    return {"k": "bin", "op": "+", "a": e, "b": {"k": "lit", "v": 0}} if e["k"] == "proj" else e
+    if e["k"] == "match":
+        return dict(e, d=no_tail_proj(e["d"]), arms=[no_tail_proj(a) for a in e["arms"]])
+    return {"k": "bin", "op": "+", "a": e, "b": {"k": "lit", "v": 0}} if e["k"] in ("proj", "fld") else e
 
 
 def closure(used, prelude):
@@ -270,9 +320,10 @@ def closure(used, prelude):
     return out
 
 
-def random_program(rng, prelude, sig, max_nodes=40, tuples=True):
+def random_program(rng, prelude, sig, max_nodes=40, tuples=True, match=False):
     g = Gen(rng, prelude, sig, max_nodes)
     g.tuples = tuples
+    g.match = match
     fns = {}
     nuser = rng.randint(0, 2)
     for i in range(nuser):
